@@ -13,6 +13,8 @@ which field each operand flows into and which parameter each emitted operand cam
 Undecidable conditions are explored path by path (a decision oracle re-runs the entry function); all paths of one
 dispatch arm must agree on the signature, otherwise the function is reported as not summarisable (never guessed).
 """
+import re
+
 import hirq
 from hirq import def_path, is_node, last
 
@@ -44,9 +46,9 @@ class _TrialAbort(Exception):
 
 
 class Val:
-    __slots__ = ("k", "a", "toks", "deps", "lanes", "shr", "direct")
+    __slots__ = ("k", "a", "toks", "deps", "lanes", "shr", "direct", "bits")
 
-    def __init__(self, k, a=None, toks=(), deps=frozenset(), lanes=None, shr=0, direct=None):
+    def __init__(self, k, a=None, toks=(), deps=frozenset(), lanes=None, shr=0, direct=None, bits=None):
         self.k = k
         self.a = a
         self.toks = tuple(toks)
@@ -54,9 +56,10 @@ class Val:
         self.lanes = lanes
         self.shr = shr
         self.direct = direct
+        self.bits = bits        # upper bound on the number of significant bits of an unsigned scalar (None: unknown)
 
     def with_(self, **kw):
-        v = Val(self.k, self.a, self.toks, self.deps, self.lanes, self.shr, self.direct)
+        v = Val(self.k, self.a, self.toks, self.deps, self.lanes, self.shr, self.direct, self.bits)
         for k, x in kw.items():
             setattr(v, k, x)
         return v
@@ -76,6 +79,26 @@ def unk(*vals, **kw):
 
 
 UNIT = Val("unit")
+
+INT_WIDTH = {"u8": 8, "u16": 16, "u32": 32, "u64": 64, "u128": 128, "usize": 64,
+             "i8": 8, "i16": 16, "i32": 32, "i64": 64, "i128": 128, "isize": 64}
+LOOP_CAP = 64      # a loop that still runs after this many iterations is treated as unbounded
+_CORE_NUM = re.compile(r"^core::num::<impl ([ui])(8|16|32|64|128|size)>::(BITS|MAX|MIN)$")
+
+
+def core_num_const(path):
+    """associated constants of the primitive integer types (language facts; core's items are not in the crate facts;
+    usize = 64 because facts are produced for the 64-bit host build only)"""
+    m = _CORE_NUM.match(path or "")
+    if not m:
+        return None
+    w = 64 if m.group(2) == "size" else int(m.group(2))
+    signed = m.group(1) == "i"
+    if m.group(3) == "BITS":
+        return w
+    if m.group(3) == "MAX":
+        return (1 << (w - 1)) - 1 if signed else (1 << w) - 1
+    return -(1 << (w - 1)) if signed else 0
 
 # std API whose meaning the interpreter relies on (std, not repository code)
 VEC_PUSH = "alloc::vec::Vec::<T, A>::push"
@@ -121,6 +144,9 @@ class Interp:
         self.vprims = set()
         self.fprims = {}
         self._ids = 0
+        self.maxmode = False
+        self.max_inf = False
+        self.loop_depth = 0
         # methods that (transitively) mention the stream or the cursor field
         direct = set()
         callees = {}
@@ -230,7 +256,7 @@ class Interp:
 
     def collapse_loop(self, start):
         new = self.st.toks[start:]
-        if not new:
+        if not new or self.maxmode:
             return
         if not self._plain_bytes(new):
             raise Unsupported("loop with an unknown trip count emits %s" % "".join(t["cls"] for t in new))
@@ -245,7 +271,7 @@ class Interp:
 
     def collapse_fixed(self, start, retval, callid, path):
         new = self.st.toks[start:]
-        if len(new) != 4 or not self._plain_bytes(new):
+        if len(new) != 4 or not self._plain_bytes(new) or self.maxmode:
             return
         shifts = None
         if self.mode == "w":
@@ -404,6 +430,8 @@ class Interp:
                 if nm is not None and a.k != "self":
                     # an argument that is not a pure shift of something is a fresh scalar for the callee
                     a = a.with_(deps=a.deps | {("p", callid, nm)}, shr=a.shr if a.shr is not None else 0)
+                    if a.bits is None and a.k == "unk" and _ty in INT_WIDTH and _ty[0] == "u":
+                        a.bits = INT_WIDTH[_ty]
                 self.bind(pat, a)
             try:
                 v = self.ev(b["body"])
@@ -565,6 +593,23 @@ class Interp:
         if xv.k == "slice":
             self.star_exec(("slice", xv.a), once(Val("unk", deps=xv.deps, direct=xv.direct)))
             return UNIT
+        if xv.k == "range" and xv.a[0].k == "int" and xv.a[1].k == "int":
+            lo, hi = xv.a
+            n = max(0, hi.a - lo.a)
+            if self._has_break(body):
+                # `for _ in 0..N { ..; if <data> { break } }`: a variable-length read bounded by N
+                it = iter(range(lo.a, hi.a))
+                if n > 0:
+                    self.run_loop(lambda: once(Val("int", next(it, hi.a)))(), count=n)
+                return UNIT
+            if n > LOOP_CAP:
+                raise Unsupported("for over a constant range of %d" % n)
+            for i in range(lo.a, hi.a):
+                try:
+                    once(Val("int", i))()
+                except _Continue:
+                    continue
+            return UNIT
         if xv.k == "range":
             lo, hi = xv.a
             if lo.k == "int" and lo.a == 0:
@@ -579,13 +624,67 @@ class Interp:
         return UNIT
 
     def ev_loop(self, e):
+        return self.run_loop(lambda: self.ev(e[2]))
+
+    def run_loop(self, body, count=None):
+        """normal mode: one abstract iteration, byte tokens of the body collapse into one V.
+        max mode (see max_bytes): iterate with the concrete part of the state until a condition that is *known*
+        leaves the loop; data-dependent exits are not taken, so the bytes counted are the worst case."""
         start = len(self.st.toks)
+        self.loop_depth += 1
         try:
-            self.ev(e[2])
-        except (_Break, _Continue):
-            pass
+            if not self.maxmode:
+                try:
+                    body()
+                except (_Break, _Continue):
+                    pass
+            else:
+                n = 0
+                while count is None or n < count:
+                    if n >= LOOP_CAP:
+                        if len(self.st.toks) != start:
+                            self.max_inf = True
+                        break
+                    try:
+                        body()
+                    except _Break:
+                        break
+                    except _Continue:
+                        pass
+                    n += 1
+        finally:
+            self.loop_depth -= 1
         self.collapse_loop(start)
         return UNIT
+
+    @staticmethod
+    def _has_break(body):
+        """a `break` that belongs to this loop body (not to a nested loop)"""
+        st = [body]
+        while st:
+            x = st.pop()
+            if isinstance(x, list):
+                if is_node(x):
+                    if x[0] == "break":
+                        return True
+                    if x[0] in ("loop", "closure"):
+                        continue
+                st.extend(c for c in x if isinstance(c, list))
+        return False
+
+    def max_bytes(self, path, args):
+        """worst-case number of stream bytes one call of `path` produces/consumes: int, None = unbounded,
+        or a string when the function cannot be analysed"""
+        self.maxmode, self.max_inf = True, False
+        try:
+            res = self.run(path, args, [])
+        finally:
+            self.maxmode = False
+        if res["outcome"] != "ok":
+            return "not analysable (%s)" % res.get("why", res["outcome"])
+        if self.max_inf:
+            return None
+        return sum(1 for t in res["toks"] if t["cls"] == "B")
 
     # ------------------------------------------------------------------ branching
     def _trial(self, thunk):
@@ -623,6 +722,10 @@ class Interp:
             sig, v, emitted = self._trial(th)
             outs.append((sig, v, emitted, self.st.snapshot()))
             self.st.restore(snap)
+        if self.maxmode and self.loop_depth > 0:
+            stay = [i for i, o in enumerate(outs) if o[0] in ("normal", "abort", "continue")]
+            if stay and len(stay) < len(outs):
+                return thunks[stay[0]]()        # worst case: a data-dependent exit is not taken
         if True:
             live = [o for o in outs if o[0] != "diverge"]
             if not live:
@@ -746,6 +849,9 @@ class Interp:
             info = self.consts.get(path)
             if info and isinstance(info.get("value"), int) and not isinstance(info.get("value"), bool):
                 return Val("int", info["value"])
+            cv = core_num_const(path)
+            if cv is not None:
+                return Val("int", cv)
         return unk()
 
     def _ev_call(self, e):
@@ -761,11 +867,16 @@ class Interp:
             v.shr = (l.shr or 0) + r.a if l.shr is not None else None
             v.lanes = None
             v.direct = l.direct
+            if l.bits is not None:
+                v.bits = max(0, l.bits - r.a)
         elif op == "BitAnd" and (r.k == "int" or l.k == "int"):
             src = l if r.k == "int" else r
             v.shr = src.shr
             v.lanes = src.lanes
             v.direct = src.direct
+            mask = r.a if r.k == "int" else l.a
+            if isinstance(mask, int) and mask >= 0:
+                v.bits = min(mask.bit_length(), src.bits) if src.bits is not None else mask.bit_length()
         elif op == "Shl" and r.k == "int" and l.lanes is not None:
             v.lanes = {t: s + r.a for t, s in l.lanes.items()}
             v.shr = None
@@ -775,6 +886,9 @@ class Interp:
             v.shr = None
         else:
             v.shr = None
+        if op in ("Ne", "Eq", "Gt") and ((l.bits == 0 and r.k == "int" and r.a == 0) or
+                                         (r.bits == 0 and l.k == "int" and l.a == 0 and op != "Gt")):
+            return Val("bool", op == "Eq")      # a scalar with no significant bits left is 0
         if l.k == "int" and r.k == "int":
             try:
                 res = {"Add": l.a + r.a, "Sub": l.a - r.a, "Mul": l.a * r.a, "Eq": l.a == r.a, "Ne": l.a != r.a,
@@ -801,9 +915,12 @@ class Interp:
         v = self.ev(e[1])
         if v.k in ("int", "len", "opcbyte"):
             return v
+        w = INT_WIDTH.get(e[2]) if isinstance(e[2], str) else None
         if v.k == "unk":
+            if w is not None and v.bits is not None and v.bits > w:
+                return v.with_(bits=w)
             return v
-        return unk(v, direct=v.direct).with_(lanes=v.lanes, shr=v.shr)
+        return unk(v, direct=v.direct).with_(lanes=v.lanes, shr=v.shr, bits=v.bits)
 
     def _ev_field(self, e):
         base = self.ev(e[1])
@@ -932,7 +1049,15 @@ class Interp:
             return UNIT
         if is_node(l0) and l0[0] == "local":
             old = self.lookup(l0[1])
+            if old.k == "int" and rv.k == "int" and op in ("AddAssign", "SubAssign", "MulAssign"):
+                self.set_local(l0[1], Val("int", {"AddAssign": old.a + rv.a, "SubAssign": old.a - rv.a,
+                                                  "MulAssign": old.a * rv.a}[op]))
+                return UNIT
             nv = unk(old, rv)
+            if op == "ShrAssign" and rv.k == "int" and old.bits is not None:
+                nv.bits = max(0, old.bits - rv.a)
+            elif op == "BitAndAssign" and rv.k == "int" and rv.a >= 0:
+                nv.bits = min(rv.a.bit_length(), old.bits) if old.bits is not None else rv.a.bit_length()
             if op in ("ShrAssign", "BitOrAssign", "BitAndAssign") and rv.k == "int":
                 nv.direct = old.direct      # encoding arithmetic with a literal keeps the operand's identity
             if op == "ShrAssign" and rv.k == "int" and old.shr is not None:
